@@ -109,7 +109,8 @@ class Timedelta(Sub):
         ops = (("+", lambda: t + td, 1), ("-", lambda: t - td, -1),
                ("add_timedelta", lambda: t.add_timedelta(td), 1), ("subtract_timedelta", lambda: t.subtract_timedelta(td), -1))
         if td.days != 0:
-            for nm, f, sg in ops:
+            pdd = pendulum.duration(days=d, seconds=s, microseconds=u)
+            for nm, f, sg in ops + (("+ Duration", lambda: t + pdd, 1), ("- Duration", lambda: t - pdd, -1)):
                 try:
                     r = f()
                 except TypeError:
@@ -122,6 +123,21 @@ class Timedelta(Sub):
             req(type(r) is Time, f"Time {nm} timedelta does not return a Time", got=type(r).__name__)
             req(tus(r) == (t0 + sg * amt) % DAY, f"Time {nm} timedelta is not (t {'+' if sg > 0 else '-'} td) mod 24h",
                 got=str(r), expected=hmsu(t0 + sg * amt))
+        # the same amounts as pendulum's own timedelta subclasses (what t2 - t1, diff() and duration() hand back): a Duration is a timedelta
+        t2 = mk((t0 + amt) % DAY)
+        variants = [("Duration", pendulum.duration(seconds=s, microseconds=u)),
+                    ("Duration(h,m,s)", pendulum.duration(hours=abs(amt) // (3600 * 10**6) * (1 if amt >= 0 else -1), microseconds=amt - abs(amt) // (3600 * 10**6) * (1 if amt >= 0 else -1) * 3600 * 10**6))]
+        if 0 <= t0 + amt < DAY:
+            variants.append(("t2 - t", t2 - t))
+            variants.append(("t.diff(t2, False)", t.diff(t2, False)))
+        for vn, pd in variants:
+            req(tdus(pd) == amt, "harness: variant operand has another length", variant=vn, got=tdus(pd), expected=amt)
+            for nm, f, sg in (("+", lambda: t + pd, 1), ("-", lambda: t - pd, -1), ("add_timedelta", lambda: t.add_timedelta(pd), 1),
+                              ("subtract_timedelta", lambda: t.subtract_timedelta(pd), -1)):
+                r = f()
+                req(type(r) is Time, f"Time {nm} {vn} does not return a Time", got=type(r).__name__)
+                req(tus(r) == (t0 + sg * amt) % DAY, f"Time {nm} {vn} is not (t {'+' if sg > 0 else '-'} amount) mod 24h", got=str(r), expected=hmsu(t0 + sg * amt),
+                    operand=repr(pd))
         back = (t + td) - td
         req(tus(back) == t0, "(t + td) - td != t", got=str(back))
         wraps = t0 + amt >= DAY or t0 - amt < 0
